@@ -18,7 +18,7 @@ import numpy as np
 
 FAMILIES = ["grid", "corenet", "interacting", "spatial", "resistive", "rp",
             "rp_lines", "crp_jrp", "visibility", "surrogates", "funcnet",
-            "climate", "rp_twins", "isrn", "big_layouts"]
+            "climate", "rp_twins", "isrn", "big_layouts", "funcnet_knn"]
 
 META = dict(
     flavour="asanrec",
@@ -33,7 +33,7 @@ META = dict(
     technique="compiler sanitizers (ASan+UBSan) on an instrumented rebuild, "
               "hostile-shape workload through the public API",
     rule=("cases: every public entry point that reaches an _ext kernel "
-          "(15 families, one process each; the 15th repeats the pointer-"
+          "(16 families, one process each; the 15th repeats the pointer-"
           "passing entry points with inputs of KiB..MiB size in Fortran, "
           "transposed, strided and negative-stride layouts, where freed "
           "temporaries are no longer hidden by NumPy's small-block cache) x shapes with every dimension in "
@@ -802,7 +802,9 @@ def fam_surrogates(ctx):
                            emb, 0.5, silence_level=3).shape)
 
 
-def fam_funcnet(ctx):
+def fam_funcnet(ctx, part=0):
+    """part 0: cross correlation, Gaussian / binning MI;  part 1: everything
+    that reaches the kNN kernel, information transfer, symmetrisation."""
     from pyunicorn.funcnet import CouplingAnalysis as CA
     r = ctx.rng("func")
     Ns = [0, 1, 2, 3, 5]
@@ -815,12 +817,12 @@ def fam_funcnet(ctx):
             def mk(a=a):
                 return CA(a, silence_level=3)
             for tau in (0, 1, 3, T, T + 2):
-                for lm in ("max", "all"):
+                for lm in ("max", "all") if part == 0 else ():
                     yield (f"CouplingAnalysis.cross_correlation|tau={tau},"
                            f"{lm},{tag}",
                            lambda mk=mk, tau=tau, lm=lm:
                            mk().cross_correlation(tau_max=tau, lag_mode=lm))
-                for est in ("gauss", "binning"):
+                for est in ("gauss", "binning") if part == 0 else ():
                     for lm in ("max", "all"):
                         yield (f"CouplingAnalysis.mutual_information|{est},"
                                f"tau={tau},{lm},{tag}",
@@ -828,6 +830,8 @@ def fam_funcnet(ctx):
                                mk().mutual_information(
                                    tau_max=tau, estimator=est, lag_mode=lm,
                                    bins=3))
+                if part == 0:
+                    continue
                 # knn: the growing-cube search cannot terminate unless
                 # T - tau > knn  (generator precondition, see DESIGN C10)
                 for knn in (1, 2, 5):
@@ -864,6 +868,8 @@ def fam_funcnet(ctx):
                                mk().information_transfer(
                                    tau_max=tau, estimator="gauss",
                                    cond_mode=cm))
+    if part == 0:
+        return
     # the kNN helper itself with 2 .. 9 rows (X, Y and up to seven conditions)
     for rows, Tn in itertools.product((2, 3, 4, 5, 6, 9), (12, 40)):
         arr = r.normal(size=(rows, Tn))
@@ -1127,7 +1133,9 @@ def fam_big_layouts(ctx):
                            silence_level=3), m)()))
 
 
-FAM_FUNCS = dict(big_layouts=fam_big_layouts, grid=fam_grid, corenet=fam_corenet,
+FAM_FUNCS = dict(big_layouts=fam_big_layouts,
+                 funcnet_knn=lambda ctx: fam_funcnet(ctx, part=1),
+                 grid=fam_grid, corenet=fam_corenet,
                  interacting=fam_interacting, spatial=fam_spatial,
                  resistive=fam_resistive, rp=fam_rp, rp_lines=fam_rp_lines,
                  crp_jrp=fam_crp_jrp, visibility=fam_visibility,
@@ -1153,6 +1161,7 @@ def run(ctx):
             for cid, thunk in FAM_FUNCS[fam](ctx):
                 if ctx.time_left() <= 0:
                     ctx.count("budget_truncated_families")
+                    ctx.note("budget_truncated_family", fam)
                     return
                 yield (cid if not pno else f"{cid}#p{pno}"), thunk
     run_cases(ctx, limited())
